@@ -91,6 +91,9 @@ structure Verdict where
   pred : Bool            -- the property's predicate on the implementation's observation
   wf   : Bool := true    -- the theorem's hypothesis holds for this input
   kf   : Option String := none   -- inside a known-finding region
+  explained : Bool := false      -- inside a region: the predicate fails for the RECORDED reason (the
+                                 -- observation satisfies it once the recorded defect is undone), even
+                                 -- if the bytes differ from the model's
   model : String := ""   -- model's observation (printed when corr = false)
 
 /-- a handler decides one case line: input tokens, observation tokens -/
@@ -99,13 +102,17 @@ abbrev Handler := List String → List String → Option Verdict
 def mkHandler {I O} [BEq O] [Repr O] (rdI : Rd I) (rdO : Rd O)
     (model : I → O) (pred : I → O → Bool)
     (wf : I → Bool := fun _ => true)
-    (kf : I → O → Option String := fun _ _ => none) : Handler :=
+    (kf : I → O → Option String := fun _ _ => none)
+    (kfx : I → O → Bool := fun _ _ => false) : Handler :=
   fun inp obs =>
     match (do let i ← rdI; Rd.done; pure i : Rd I) inp, (do let o ← rdO; Rd.done; pure o : Rd O) obs with
     | some (i, _), some (o, _) =>
       let m := model i
       let c := m == o
-      some { corr := c, pred := pred i o, wf := wf i, kf := kf i o,
+      let k := kf i o
+      some { corr := c, pred := pred i o, wf := wf i, kf := k,
+             explained := k.isSome && kfx i o,   -- evaluated inside a region only
+
              model := if c then "" else (toString (repr m)).replace "\n" " " }
     | _, _ => none
 
@@ -116,7 +123,7 @@ def splitCase (toks : List String) : List String × List String :=
 
 def Verdict.render (id : String) (v : Verdict) : String :=
   s!"{id} corr={if v.corr then "eq" else "neq"} pred={if v.pred then "t" else "f"} " ++
-  s!"wf={if v.wf then "t" else "f"} kf={v.kf.getD "-"}" ++
+  s!"wf={if v.wf then "t" else "f"} kf={v.kf.getD "-"}" ++ (if v.explained then " kfx=t" else "") ++
   (if v.corr then "" else s!" model={v.model}")
 
 end Rtp.Proto
